@@ -923,6 +923,30 @@ class Symx:
             live = []
             for st in states:
                 e = strip(s['e'])
+                cc0 = (e.get('callee') or {}) if e['k'] == 'Call' else {}
+                if e['k'] == 'Call' and cc0.get('inrepo') and cc0.get('q') in self.inline and cc0.get('ret') == 'void' \
+                        and e.get('kind') == 'func' and self.depth < self.inline_depth:
+                    callee = self.prog.by_sig(cc0.get('sig'))
+                    if callee is not None:
+                        sub = State({}, list(st.conds))
+                        for p, a in zip(callee.params, e['args']):
+                            sub.env[p['id']] = self.rvalue(a, st)
+                        self.depth += 1
+                        try:
+                            outs = self.exec_body(callee.body, sub)
+                        finally:
+                            self.depth -= 1
+                        for o in outs:
+                            if o.kind == 'exit':
+                                done.append(Outcome('exit', None, o.state, o.node))
+                                continue
+                            st2 = st.fork()
+                            st2.conds = list(o.state.conds)
+                            for p, a in zip(callee.params, e['args']):
+                                if p.get('byref') and not p.get('constref') and p['id'] in o.state.env:
+                                    self.assign(a, o.state.env[p['id']], st2)
+                            live.append(st2)
+                        continue
                 if e['k'] == 'Call' and (e.get('callee') or {}).get('noreturn'):
                     for a in e.get('args', []):
                         self.sym_or_name(a, st)
